@@ -46,8 +46,13 @@ def load_corpus(engine_dir):
     if os.path.isdir(d):
         for f in sorted(os.listdir(d)):
             if f.endswith(".ops"):
-                ops = [l.rstrip("\n") for l in open(os.path.join(d, f)) if l.strip() and not l.startswith("#")]
-                hs.append(History(ops, name="corpus/" + engine_dir + "/" + f))
+                lines = [l.rstrip("\n") for l in open(os.path.join(d, f))]
+                ops = [l for l in lines if l.strip() and not l.startswith("#")]
+                tags = set()
+                for l in lines:
+                    if l.startswith("#tags:"):
+                        tags |= set(l[6:].split())
+                hs.append(History(ops, tags=tags, name="corpus/" + engine_dir + "/" + f))
     return hs
 
 
